@@ -68,4 +68,93 @@ theorem invert_eq_model (t : Table) : Fca.Gen.Lists.invert t = .ok (L.invert t) 
   unfold Fca.Gen.Lists.invert L.invert
   rfl
 
+-- @target getSubtable
+/-- `_get_subtable` with index lists (slices are outside the translated subset) -/
+theorem getSubtable_eq_model (t : Table) (hwf : t.WF) (rs : List Nat) (cols : Option (List Nat))
+    (hrs : ∀ i ∈ rs, i < t.height) (hc : OptIdx.Valid cols t.width) :
+    Fca.Gen.Lists.getSubtable t rs cols = .ok (L.getSubtable t (.idx rs) (cols.map Sel.idx)) := by
+  unfold Fca.Gen.Lists.getSubtable L.getSubtable
+  cases cols with
+  | none =>
+    simp only [pure_eq_ok, Option.map_none, Sel.resolve]
+    rw [mapM_ok (g := fun r => t.row r) (fun r hr => by
+      simp only [idx_data t (hrs r hr), ok_bind]; gen_close)]
+    gen_close
+  | some cs =>
+    simp only [pure_eq_ok, Option.map_some, Sel.resolve]
+    rw [mapM_ok (g := fun r => cs.map fun c => (t.row r).getD c false) (fun r hr => by
+      rw [mapM_ok (g := fun c => (t.row r).getD c false) (fun c hcm => by
+        simp only [idx_data t (hrs r hr), idx_row t hwf (hrs r hr) (hc cs rfl c hcm), ok_bind]; gen_close)]
+      gen_close)]
+    gen_close
+
+-- @target getItem
+theorem getItem_eq_model (t : Table) (hwf : t.WF) (i j : Nat) (hi : i < t.height) (hj : j < t.width) :
+    Fca.Gen.Lists.getItem t i j = .ok (L.getItem t i j) := by
+  unfold Fca.Gen.Lists.getItem L.getItem
+  simp only [idx_data t hi, idx_row t hwf hi hj, ok_bind, pure_eq_ok]
+  gen_close
+
+-- @target transpose
+/-- `T` (inherited from `AbstractBinTable`): the columns, read with `_get_column(range(height), j)` -/
+theorem transpose_eq_model (t : Table) (hwf : t.WF) : Fca.Gen.Lists.transpose t = .ok (L.transpose t) := by
+  unfold Fca.Gen.Lists.transpose L.transpose
+  rw [mapM_ok (g := fun j => L.getColumn t (.idx (List.range t.height)) j) (fun j hj => by
+    rw [getColumn_eq_model t hwf _ j (fun i hi => List.mem_range.mp hi) (List.mem_range.mp hj)]
+    gen_close)]
+  gen_close
+
+-- @target toList
+theorem toList_eq_model (t : Table) : Fca.Gen.Lists.toList t = .ok (L.toList t) := by
+  unfold Fca.Gen.Lists.toList L.toList
+  rfl
+
+-- @target tableEq
+/-- `==` between two `BinTableLists` — no hypothesis -/
+theorem tableEq_eq_model (t o : Table) : Fca.Gen.Lists.tableEq t o = .ok (Fca.tableEq .lists t .lists o) := by
+  unfold Fca.Gen.Lists.tableEq Fca.tableEq
+  by_cases hh : t.height = o.height <;> by_cases hw : t.width = o.width <;> simp [hh, hw] <;> rfl
+
+-- @target tableLen
+theorem tableLen_eq_model (t : Table) : Fca.Gen.Lists.tableLen t = .ok t.height := by
+  unfold Fca.Gen.Lists.tableLen
+  rfl
+
+/-! ## the `axis` dispatch of `all / any / sum` for `axis = None` and of `sum` for `axis = 0 / 1` -/
+
+-- @target allAxisNone
+theorem allAxisNone_eq_model (t : Table) (hwf : t.WF) (rows cols : Option (List Nat))
+    (hr : ∀ xs, rows = some xs → ∀ x ∈ xs, x < t.height) (hc : ∀ xs, cols = some xs → ∀ x ∈ xs, x < t.width) :
+    Fca.Gen.Lists.allAxisNone t rows cols = .ok (L.allAll t rows cols) := by
+  unfold Fca.Gen.Lists.allAxisNone
+  rw [allAll_eq_model t hwf rows cols hr hc]; gen_close
+
+-- @target anyAxisNone
+theorem anyAxisNone_eq_model (t : Table) (hwf : t.WF) (rows cols : Option (List Nat))
+    (hr : ∀ xs, rows = some xs → ∀ x ∈ xs, x < t.height) (hc : ∀ xs, cols = some xs → ∀ x ∈ xs, x < t.width) :
+    Fca.Gen.Lists.anyAxisNone t rows cols = .ok (L.anyAny t rows cols) := by
+  unfold Fca.Gen.Lists.anyAxisNone
+  rw [anyAny_eq_model t hwf rows cols hr hc]; gen_close
+
+-- @target sumAxisNone
+theorem sumAxisNone_eq_model (t : Table) (hwf : t.WF) (rows cols : Option (List Nat))
+    (hr : ∀ xs, rows = some xs → ∀ x ∈ xs, x < t.height) (hc : ∀ xs, cols = some xs → ∀ x ∈ xs, x < t.width) :
+    Fca.Gen.Lists.sumAxisNone t rows cols = .ok (L.sumAll t rows cols) := by
+  unfold Fca.Gen.Lists.sumAxisNone
+  rw [sumAll_eq_model t hwf rows cols hr hc]; gen_close
+
+-- @target sumAxis0
+theorem sumAxis0_eq_model (t : Table) (hwf : t.WF) (rows cols : Option (List Nat))
+    (hr : ∀ xs, rows = some xs → ∀ x ∈ xs, x < t.height) (hc : ∀ xs, cols = some xs → ∀ x ∈ xs, x < t.width) :
+    Fca.Gen.Lists.sumAxis0 t rows cols = .ok (L.sumPerColumn t rows cols) := by
+  unfold Fca.Gen.Lists.sumAxis0
+  rw [sumPerColumn_eq_model t hwf rows cols hr hc]; gen_close
+
+-- @target sumAxis1
+theorem sumAxis1_eq_model (t : Table) (hwf : t.WF) (rows cols : Option (List Nat))
+    (hr : ∀ xs, rows = some xs → ∀ x ∈ xs, x < t.height) (hc : ∀ xs, cols = some xs → ∀ x ∈ xs, x < t.width) :
+    Fca.Gen.Lists.sumAxis1 t rows cols = .ok (L.sumPerRow t rows cols) := by
+  unfold Fca.Gen.Lists.sumAxis1
+  rw [sumPerRow_eq_model t hwf rows cols hr hc]; gen_close
+
 end Fca.Gen.Lists
